@@ -64,9 +64,15 @@ OnChoice(e) ==
   <<IF c.nchoice > 0 THEN "C02.SingleShuffle" ELSE "",
     IF e.replace \/ ~Distinct(e.result) \/ ~ValidIds(e.result) \/ e.a # lib.N THEN "C02.ShuffleIsPartialPermutation" ELSE "">>
 
+\* One uniform variate per evaluated sample.  A draw may cover every sample evaluated so far (fresh variates for all of them) or
+\* only the samples that have none yet (each sample keeps its variate): both are "an independent uniform draw from the sampler's
+\* generator" per sample; how many calls deliver them is not part of the property.
+CoversAll(e) == e.n = Len(c.lls)
+CoversNew(e) == e.n + Len(c.u) = Len(c.lls) /\ Len(c.u) > 0
+UAfter(e) == IF CoversAll(e) THEN e.u ELSE IF CoversNew(e) THEN c.u \o e.u ELSE e.u
 OnUniform(e) ==
-  <<IF e.n # Len(c.lls) THEN (IF c.api = "iterative" THEN "C14.OneUniformPerEvaluatedSampleEachRound" ELSE "C02.OneUniformPerEvaluatedSample") ELSE "",
-    IF e.n = Len(c.lls) /\ ~RatioSane(c.lls, e.ratio) THEN "H.RatioSane" ELSE "">>
+  <<IF ~CoversAll(e) /\ ~CoversNew(e) THEN (IF c.api = "iterative" THEN "C14.OneUniformPerEvaluatedSampleEachRound" ELSE "C02.OneUniformPerEvaluatedSample") ELSE "",
+    IF Len(e.ratio) = Len(c.lls) /\ ~RatioSane(c.lls, e.ratio) THEN "H.RatioSane" ELSE "">>
 
 OnMap(e) ==
   <<IF \E k \in DOMAIN e.tasks : Len(e.tasks[k].sel) = 0 THEN "C05.TasksNonEmpty" ELSE "">>
@@ -112,8 +118,7 @@ OnReturnRejection(e) ==
   ELSE IF e.raised THEN <<"C02.AcceptedInputRaises">>
   ELSE IF e.type # "JokerSamples" THEN <<"C02.ReturnsSamples">>
   ELSE IF c.evald # ExpectedEvald THEN <<"C02.EvaluatesFirstNPriorInOrder">>
-  ELSE IF c.nuni # 1 THEN <<"C02.OneUniformPerEvaluatedSample">>
-  ELSE IF Len(c.u) # Len(c.lls) THEN <<"C02.OneUniformPerEvaluatedSample">>
+  ELSE IF c.nuni < 1 \/ Len(c.u) # Len(c.lls) \/ Len(c.ratio) # Len(c.lls) THEN <<"C02.OneUniformPerEvaluatedSample">>
   ELSE <<RowsClause(e, Full, c.nlinear), UnalteredClause(e), AllClause(e), GroupClause(Full),
          IF c.drawsel # <<>> /\ c.drawsel # Full THEN "C05.DrawTasksCoverAcceptedRowsInOrder" ELSE "">>
        \o LogprobClauses(e, GoodT, Full, c.nlinear)
@@ -196,7 +201,7 @@ Step ==
                [] e.ev = "Draw" /\ c.api # "none" /\ e.stream = "parent" /\ e.method = "choice" ->
                       [c EXCEPT !.choice = [k \in DOMAIN e.result |-> e.result[k]], !.nchoice = @ + 1]
                [] e.ev = "Draw" /\ c.api # "none" /\ e.stream = "parent" /\ e.method = "uniform" ->
-                      [c EXCEPT !.nuni = @ + 1, !.u = e.u, !.ratio = e.ratio]
+                      [c EXCEPT !.nuni = @ + 1, !.u = UAfter(e), !.ratio = e.ratio]
                [] e.ev = "Map" /\ c.api # "none" /\ e.worker = "make_full_samples_worker" -> [c EXCEPT !.drawsel = FlattenSel(e.tasks)]
                [] e.ev = "Map" /\ c.api # "none" /\ e.worker = "marginal_ln_likelihood_worker" -> [c EXCEPT !.llsel = FlattenSel(e.tasks)]
                [] OTHER -> c
@@ -207,7 +212,7 @@ Step ==
                    [] e.ev = "Return" -> AddAll(fails, OnReturn(e), l)
                    [] OTHER -> fails
      /\ acc' = IF e.ev = "Return" /\ c.api = "rejection" /\ c.group # 0 /\ ~e.raised /\ c.group \notin DOMAIN acc
-                  /\ c.group = Len(acc) + 1 /\ Len(c.u) = Len(c.lls) /\ c.nuni = 1
+                  /\ c.group = Len(acc) + 1 /\ Len(c.u) = Len(c.lls) /\ c.nuni >= 1
                THEN Append(acc, Full) ELSE acc
   /\ l' = l + 1 /\ tid' = tid
   /\ (l' > Len(Ev) => PrintT(<<"VERDICT", Tr[tid].id, fails' = <<>>, fails'>>))
